@@ -72,6 +72,7 @@ type Duties struct {
 	AttLast, PropLast, SyncLast             map[uint64]bool // epoch -> whether the latest request for it was answered
 	Altair                                  uint64
 	Period                                  uint64
+	OnProposerFetch                         func(epoch uint64) // called (outside the lock) while a proposer duties request is under way
 	inflight                                atomic.Int64
 }
 
@@ -87,8 +88,8 @@ type Env struct {
 	mu           sync.Mutex
 	Events       []Event
 	AttestReturn func(d *attester.Duty) []*phase0.Attestation // what the fake attester returns
-	AttestGate  chan struct{}   // when set, the fake attester blocks on it after recording the call
-	SyncMissing map[uint64]bool // validators for which the account manager has no account (sync committee lookups by index)
+	AttestGate   chan struct{}                                // when set, the fake attester blocks on it after recording the call
+	SyncMissing  map[uint64]bool                              // validators for which the account manager has no account (sync committee lookups by index)
 	inflight     atomic.Int64
 	activity     atomic.Int64
 }
@@ -176,6 +177,12 @@ func (d *Duties) AttesterDuties(_ context.Context, opts *api.AttesterDutiesOpts)
 func (d *Duties) ProposerDuties(_ context.Context, opts *api.ProposerDutiesOpts) (*api.Response[[]*apiv1.ProposerDuty], error) {
 	d.inflight.Add(1)
 	defer d.inflight.Add(-1)
+	d.mu.Lock()
+	hook := d.OnProposerFetch
+	d.mu.Unlock()
+	if hook != nil {
+		hook(uint64(opts.Epoch)) // e.g. time passing while the request is under way
+	}
 	d.mu.Lock()
 	defer d.mu.Unlock()
 	d.ProposerCalls = append(d.ProposerCalls, uint64(opts.Epoch))
@@ -573,4 +580,11 @@ func (e *Env) PendingOneOff() map[string]time.Time {
 		}
 	}
 	return out
+}
+
+// SetOnProposerFetch installs (or with nil removes) the proposer-fetch hook.
+func (d *Duties) SetOnProposerFetch(f func(epoch uint64)) {
+	d.mu.Lock()
+	d.OnProposerFetch = f
+	d.mu.Unlock()
 }
